@@ -166,6 +166,8 @@ def run_impl(case, entry="predict"):
             d[col] = d[col].astype("string")
         if case["backend"] == "sqlite":
             d = d.drop(columns=["arr", "arr2"])
+        if len(tabs) % 2 == 1:
+            d = d[list(d.columns)[::-1]]  # later tables may list their columns in another order
         tabs.append(d)
     if case.get("one_table") and len(tabs) > 1:
         tabs = [pd.concat([d.assign(source_dataset=nm) for d, nm in zip(tabs, case["names"])], ignore_index=True)]
